@@ -56,14 +56,56 @@ func mk[T any](name, readFn, writeFn string, weight int, refSrc string,
 	if ref != nil {
 		p.ref = func(v any) []byte { return ref(v.(T)) }
 	}
-	p.show = func(v any) string {
-		s := fmt.Sprintf("%#v", v)
-		if len(s) > 160 {
-			s = s[:160] + fmt.Sprintf("...(+%d)", len(s)-160)
-		}
-		return s
-	}
+	p.show = show
 	return p
+}
+
+// show renders a value for witnesses without formatting megabytes.
+func show(v any) string {
+	switch x := v.(type) {
+	case []byte:
+		if len(x) > 24 {
+			return fmt.Sprintf("[]byte(len=%d){% x ...}", len(x), x[:24])
+		}
+		return fmt.Sprintf("[]byte(len=%d){% x}", len(x), x)
+	case string:
+		if len(x) > 48 {
+			return fmt.Sprintf("string(len=%d)%q...", len(x), x[:48])
+		}
+		return fmt.Sprintf("%q", x)
+	case []string:
+		if len(x) > 4 {
+			return fmt.Sprintf("[]string(len=%d){%s, ...}", len(x), show(x[0]))
+		}
+	case []int:
+		if len(x) > 8 {
+			return fmt.Sprintf("[]int(len=%d)%v...", len(x), x[:8])
+		}
+	case []key.Key:
+		if len(x) > 4 {
+			return fmt.Sprintf("[]key.Key(len=%d){%s, ...}", len(x), x[0])
+		}
+		return fmt.Sprint(x)
+	case key.Key:
+		if x == nil {
+			return "nil key"
+		}
+		return x.String()
+	case []profile.Property:
+		if len(x) > 2 {
+			return fmt.Sprintf("[]Property(len=%d){%s, ...}", len(x), show(x[0].Name))
+		}
+		var parts []string
+		for _, p := range x {
+			parts = append(parts, fmt.Sprintf("{%s %s %s}", show(p.Name), show(p.Value), show(p.Signature)))
+		}
+		return "[]Property{" + strings.Join(parts, " ") + "}"
+	}
+	s := fmt.Sprintf("%#v", v)
+	if len(s) > 160 {
+		s = s[:160] + fmt.Sprintf("...(+%d)", len(s)-160)
+	}
+	return s
 }
 
 func same[T comparable](a, b T) bool { return a == b }
